@@ -25,6 +25,11 @@ func runC11(c *Ctx) {
 	scopeAgreement(c, "R4")
 	c11R5(c, "R5")
 	c11R6(c, "R6")
+	callNonFunction(c, "R11")
+	c.shared("R12", "C14/R1", "nothing is written after a fault: the command-line tool returns at once with a non-zero status on every error, and the JSON output is produced only after EvalProgram succeeded", keyHas("error-source", "json-after-successful-run", "success-exit"), func(s *Ctx) {
+		cliExitDiscipline(s, "R1")
+		jsonTextAsData(s, "R1")
+	})
 	if eb := c.P.LangFunc("(*Evaluator).evalBinaryExpr"); eb != nil {
 		c.shared("R7", "C05/R4", "division by zero is a fault that stops the run: every float division / integer remainder in the evaluator is dominated by the zero test and the error return", nil, func(s *Ctx) { c05ZeroGuard(s, eb) })
 	}
